@@ -16,6 +16,9 @@ TRUSTED = [
     'extraction (ExtrOcamlBasic only) + ocaml/driver.ml',
     'correspondence: Checker.check_plurals called in-process on a constructed context (metadata, language stub, polib entries)',
     'the `re` engine is modelled (leftmost search of a backtrack-free pattern), not verified',
+    'tools/gen/gen_plurals_src.py (python ast of lib/gettext.py parse_plural_expression / parse_plural_forms and of the whole of Checker.check_plurals -> '
+    'Generated/PluralsSrc.v, fail-closed subset, rules in its docstring) and its target vocabulary Model/PluralFormsPy.v + Lib/PySrc.v: the C07_source_tie theorems '
+    'are about that translation; Model/PluralFormsHead.v (the part of check_plurals before the parse of the value) is tied to the code by it only',
 ]
 ASSUME = ['"contains" in the property is read as Python\'s leftmost regex match (stated in the theorem)',
           'M = 2^32 and the 200-value window as in the code']
